@@ -82,8 +82,8 @@ def spec_graph(jobs, builder):
 
 class Check(PropertyCheck):
     ID = "C16"
-    LEAN_MODULE = "JobShopProofs.Properties.C16"
-    THEOREMS = ["JS.C16_nodes", "JS.C16_solved_acyclic", "JS.C16_path_le_makespan", "JS.C16_critical_path"]
+    LEAN_MODULE = "JobShopProofs.Properties.C16All"
+    THEOREMS = ["JS.C16_nodes", "JS.C16_conjunctive_typed", "JS.C16_solved_acyclic", "JS.C16_path_le_makespan", "JS.C16_critical_path"]
     RULE = ("every instance family (irregular, recirculation, flexible, unused machine ids, zero durations) x the four "
             "graph builders: node list and typed edge list (in DiGraph iteration order) of the real graph compared with the "
             "Lean model and, as sets, with the edges the documentation prescribes recomputed from the instance; then a random "
